@@ -51,19 +51,20 @@ class Check(BaseCheck):
             f = v @ a + rng.normal() + (0.0 if rng.random() < 0.5 else 0.05 * np.sin(v @ rng.normal(size=3)))
             affine = bool(np.allclose(f, v @ a + (f[0] - v[0] @ a)))
             fs = float(rng.choice([1.0, 1.0, 1e-9, 1e6]))       # the normalised gradient does not depend on the magnitude of f
-            yield dict(kind="tri", v=v, t=t, f=fs * f, a=a, affine=affine, flat=flat, name=c["name"], fscale=fs)
+            yield dict(kind="tri", v=v, t=t, f=fs * f, a=a, affine=affine, flat=flat, name=c["name"], fscale=fs, pres=c.get("pres"), vdtype=c.get("vdtype"))
         for c in gen.tet_stream(seed + 112, n_tet, "small"):
             v, t = c["v"], c["t"]
             if len(np.unique(t)) != len(v):
                 continue
             a = rng.normal(size=3)
             fs = float(rng.choice([1.0, 1.0, 1e-9, 1e6]))
-            yield dict(kind="tet", v=v, t=t, f=fs * (v @ a + rng.normal()), a=a, affine=True, flat=True, name=c["name"], fscale=fs)
+            yield dict(kind="tet", v=v, t=t, f=fs * (v @ a + rng.normal()), a=a, affine=True, flat=True, name=c["name"], fscale=fs, pres=c.get("pres"), vdtype=c.get("vdtype"))
 
     def correspond(self, drv, stats):
         fails = []
         for case in self.problems(self.seed, 14 if self.quick else 150, 6 if self.quick else 60):
             kind, v, t, f = case["kind"], case["v"], case["t"], case["f"]
+            gen.use(case)
             n = len(v)
             stats.case(core.mesh_key(v, t, f[:3].tolist()), cls=[kind + ":" + case["name"], "affine:%s" % case["affine"], "flat:%s" % case["flat"], "f-scale:%g" % case.get("fscale", 1.0)],
                        sample=dict(kind=kind, name=case["name"], n=n, affine=case["affine"]))
